@@ -93,8 +93,12 @@ type Exec struct {
 type Opts struct {
 	StepCap int  // abort the execution after this many decision points (0 = 200000)
 	Fine    bool // additional point after every atomic operation
-	Trace   bool // record a readable trace
-	NoKeys  bool // skip state-key computation (cache disabled)
+	// AfterRelease adds a point after every mutex release: another goroutine can then run in the
+	// gap between a critical section and the plain memory accesses that follow it (where a
+	// use-after-release of shared data would happen)
+	AfterRelease bool
+	Trace        bool // record a readable trace
+	NoKeys       bool // skip state-key computation (cache disabled)
 	// Reverse flips the default schedule's priority among the other goroutines (highest creation
 	// index first instead of lowest): a second reference schedule for deviation bounding.
 	Reverse bool
